@@ -22,9 +22,14 @@ class SuffixTrie(object):
         # Iterating over the suffix parts in reverse order
         for part in reversed(suffix.split(".")):
 
+            # An exception rule only records the excepted label on its parent
+            # (several rules can except different labels of the same parent).
+            # It does not make the parent a suffix by itself.
             if part.startswith("!"):
-                node.exception = part[1:]
-                break
+                if node.exception is None:
+                    node.exception = set()
+                node.exception.add(part[1:])
+                return
 
             # To save up some RAM, we initialize the children dict only
             # when strictly necessary
@@ -67,12 +72,14 @@ class SuffixTrie(object):
         for i in range(l - 1, -1, -1):
             part = parts[i]
 
-            # Cannot go deeper
-            if node.children is None:
+            # Exception: the rule's parent is the suffix, whatever else matches
+            if node.exception is not None and part in node.exception:
+                suffix_length = current_length
+                match = node
                 break
 
-            # Exception
-            if part == node.exception:
+            # Cannot go deeper
+            if node.children is None:
                 break
 
             # Wildcards: match exactly one more label, even if this label
@@ -100,8 +107,8 @@ class SuffixTrie(object):
                 suffix_length = current_length
                 match = node
 
-        # Checking the node we finished on is a leaf and is one we allow
-        if match is None or not match.leaf:
+        # Checking we matched some rule
+        if match is None or suffix_length == 0:
             return None
 
         # hostname = suffix ?
